@@ -128,19 +128,16 @@ def CueTextTokenizer(cue_text: str):
 
       elif state is _State.data_cref:
         if c == ord(";"):
-          coded_entity = str(buffer)
-          decoded_entity = html.unescape(coded_entity)
-          if decoded_entity == coded_entity :
-            result.extend(buffer)
-          else:
-            result.append(decoded_entity)
+          # html.unescape() returns its argument when it is not a character reference
+          result.append(html.unescape(str(buffer) + ";"))
           state = _State.data
-        elif c == EOF_MARKER:
-          result.extend(buffer)
+        elif c != EOF_MARKER and (chr(c).isalnum() or (c == ord("#") and str(buffer) == "&")):
+          buffer.append(chr(c))
+        else:
+          # the ampersand does not start a character reference: it stands for itself
+          result.append(html.unescape(str(buffer)))
           state = _State.data
           continue
-        else:
-          buffer.append(chr(c))
 
       elif state is _State.tag:
         if c in (0x09, 0x0A, 0x0C, 0x20):
